@@ -202,13 +202,37 @@ func oracleFor(s Snapshot, prefix string) map[string]interface{} {
 	return o
 }
 
+// runPipeline plays the history in a fresh child. Anything that keeps the harness from producing an observation -
+// the child did not start or died, its stdout closed early, an event-based wait ran into its ceiling on an
+// overloaded machine - is not a verdict about fabio: the history is played once more from scratch (new fake, new
+// child), and only if that fails too an error is returned (hx reports it as {"harness_error": …}; the driver
+// classes it `harness-error`, never as a disagreement or a specification failure; if it persists over many cases
+// the stream falls below its non-trivial floor and the run is broken).
 func runPipeline(raw json.RawMessage) (interface{}, error) {
-	var in pipeIn
-	if err := json.Unmarshal(raw, &in); err != nil {
+	out, err := runPipelineOnce(raw)
+	if err == nil {
+		return out, nil
+	}
+	if _, bad := err.(*inputError); bad {
 		return nil, err
 	}
+	out, err2 := runPipelineOnce(raw)
+	if err2 == nil {
+		return out, nil
+	}
+	return nil, fmt.Errorf("twice: %v; then: %v", err, err2)
+}
+
+// inputError: the input itself cannot be played (nonsense from the shrinker); retrying is pointless
+type inputError struct{ error }
+
+func runPipelineOnce(raw json.RawMessage) (interface{}, error) {
+	var in pipeIn
+	if err := json.Unmarshal(raw, &in); err != nil {
+		return nil, &inputError{err}
+	}
 	if len(in.Ops) > 200 {
-		return nil, errors.New("history too long")
+		return nil, &inputError{errors.New("history too long")}
 	}
 	bin, err := buildFabio()
 	if err != nil {
